@@ -160,7 +160,7 @@ var sdLabels = map[string]int{
 	"IsBackendHealthy:RLock": 1, "IsBackendHealthy:Lock": 2, "MarkBackendUnhealthy:Lock": 3,
 	"beforeRequest:RLock": 4, "beforeRequest:Lock": 5, "Execute:Lock": 6, "afterRequest:Lock": 7,
 	"SetStrategy:Lock": 8, "AddBackend:Lock": 9, "RemoveBackend:Lock": 10, "Put:Lock": 11, "Shutdown:Lock": 12,
-	"SetStrategy:RLock": 13, "NextBackend:RLock": 14, "markedHealthy:RLock": 15,
+	"SetStrategy:RLock": 13, "NextBackend:RLock": 14, "markedHealthy:RLock": 15, "ListBackends:RLock": 16,
 }
 
 func installSchedHooks() {
@@ -282,6 +282,38 @@ func runSdCase(c SdCase) (string, map[string]int) {
 			b.Mutex.RUnlock()
 		}
 		obs = append(obs, rets...)
+		lb.Stop()
+	case 5:
+		// a listing (ListBackends) against removals of some of the listed backends
+		lb := sdLBStrategy(c.Max, strategyNames[c.N])
+		listings := make([][]int, len(c.Kinds))
+		var threads []func()
+		for i, k := range c.Kinds {
+			i, k := i, k
+			if k == 30 {
+				threads = append(threads, func() {
+					for _, bi := range lb.ListBackends() {
+						var id int
+						fmt.Sscanf(bi.Name, "n%d", &id)
+						listings[i] = append(listings[i], id)
+					}
+				})
+			} else {
+				threads = append(threads, func() { lb.RemoveBackend(fmt.Sprintf("n%d", k-40)) })
+			}
+		}
+		ctl, finished = runThreads(c.Schedule, threads)
+		for i, k := range c.Kinds {
+			if k == 30 {
+				obs = append(obs, listings[i]...)
+				obs = append(obs, -1)
+			}
+		}
+		for _, bi := range lb.ListBackends() {
+			var id int
+			fmt.Sscanf(bi.Name, "n%d", &id)
+			obs = append(obs, id)
+		}
 		lb.Stop()
 	case 3:
 		lb := sdLB(2)
@@ -451,6 +483,23 @@ func TestSched(t *testing.T) {
 			}
 			for _, s := range interleavings(counts, l4, g) {
 				emit("enum", SdCase{Scenario: 4, N: kind, Kinds: sc.kinds, Init: sc.init, Client: []string{"10.0.0.1", "10.0.0.2", "10.0.0.7"}[len(s)%3], Schedule: s})
+			}
+		}
+	}
+	// scenario 5: one listing of a three-backend pool against one or two removals, every interleaving, every strategy.
+	// The listing needs 1 + 3 sections, a removal 1; each gets one more.
+	for kind := 0; kind <= 4; kind++ {
+		for _, kinds := range [][]int{{30, 42}, {30, 41}, {30, 43}, {30, 41, 42}} {
+			counts := make([]int, len(kinds))
+			for i, k := range kinds {
+				if k == 30 {
+					counts[i] = 5
+				} else {
+					counts[i] = 2
+				}
+			}
+			for _, s := range interleavings(counts, lim, g) {
+				emit("enum", SdCase{Scenario: 5, N: kind, Max: 3, Kinds: kinds, Schedule: s})
 			}
 		}
 	}
